@@ -10,6 +10,6 @@ Extraction "model.ml"
   el_init el_step el_run
   k_start k_step k_run k_steps
   haversine geo_to_cartesian
-  sim_hooks sim_start
+  sim_hooks sim_start sim_drive1 has_timer
   script_react counters0
   m_init m_run d_init d_run t_init t_run take_picture interop_session ext_behaviour.
